@@ -6,6 +6,7 @@ package main
 import (
 	"fmt"
 	"go/ast"
+	"go/constant"
 	"go/token"
 	"go/types"
 	"sort"
@@ -29,6 +30,7 @@ func init() {
 			{ID: "C13.R3", Min: 40, Desc: "panic sites guarded", Fn: c13Panics},
 			{ID: "C13.R4", Min: 17, Desc: "decode into temporaries", Fn: c13Temporaries},
 			{ID: "C13.R5", Min: 2, Desc: "progress in recursion", Fn: c13Recursion},
+			{ID: "C13.R7", Min: 3, Desc: "constant-index reads of strings and slices on the decode path are guarded by a length fact on the same value", Fn: c13ConstIndex},
 			{ID: "C13.R6", Min: 4, Desc: "loops bounded by a wire integer consume input or are capped", Fn: c13Loops},
 		},
 	})
@@ -1472,4 +1474,138 @@ func (p *Program) neverNil(fn *ssa.Function) bool {
 		}
 	}
 	return true
+}
+
+// c13ConstIndex: a decoded reference or name is validated by helpers outside the codec packages (reference factory → path and
+// address normalisation). `s[0]` on a value that can be empty panics, and an emptiness test made on a different value (before
+// a trim, on the untrimmed original) does not protect it. Every read x[c] with a constant index c of a string or slice in the
+// functions reachable from the decoders is dominated by an edge asserting len(x) > c (x != "" for c = 0) for that very value.
+func c13ConstIndex(p *Program, r *Report) {
+	scope := p.decodeHelperScope()
+	n := 0
+	for _, fn := range sortedFuncs(scope) {
+		g := p.ig(fn)
+		for i, in := range g.Nodes {
+			var x, idx ssa.Value
+			switch v := in.(type) {
+			case *ssa.Lookup:
+				if b, ok := v.X.Type().Underlying().(*types.Basic); ok && b.Info()&types.IsString != 0 {
+					x, idx = v.X, v.Index
+				}
+			case *ssa.Index:
+				if b, ok := v.X.Type().Underlying().(*types.Basic); ok && b.Info()&types.IsString != 0 {
+					x, idx = v.X, v.Index
+				}
+			case *ssa.IndexAddr:
+				if _, ok := v.X.Type().Underlying().(*types.Slice); ok {
+					x, idx = v.X, v.Index
+				}
+			}
+			if x == nil {
+				continue
+			}
+			c, isC := constInt(idx)
+			if !isC {
+				continue
+			}
+			if _, fresh := strip(x).(*ssa.Slice); fresh {
+				if al, isAl := strip(x).(*ssa.Slice).X.(*ssa.Alloc); isAl && al != nil {
+					continue // slice of a local array literal (variadic arguments)
+				}
+			}
+			n++
+			guard := map[edge]bool{}
+			for _, ifi := range g.ifs() {
+				for _, outcome := range []bool{true, false} {
+					if lenFactImplies(ifi.Cond, outcome, x, c) {
+						guard[g.branchEdge(ifi, outcome)] = true
+					}
+				}
+			}
+			ok := len(guard) > 0 && g.DominatedByEdges(i, guard)
+			r.Check(ok, fmt.Sprintf("index [%d] in %s", c, fnName(fn)), in.Pos(), fmt.Sprintf("the read of element %d is dominated by an edge asserting that this very value has more than %d elements (a test on another value — e.g. before trimming — does not count)", c, c))
+		}
+	}
+	if n == 0 {
+		r.Unresolved("no constant-index read on the decode path")
+	}
+}
+
+// lenFactImplies: on the given outcome of cond, value x has more than c elements.
+func lenFactImplies(cond ssa.Value, outcome bool, x ssa.Value, c int64) bool {
+	b, ok := cond.(*ssa.BinOp)
+	if !ok {
+		if u, isU := cond.(*ssa.UnOp); isU && u.Op == token.NOT {
+			return lenFactImplies(u.X, !outcome, x, c)
+		}
+		return false
+	}
+	same := func(v ssa.Value) bool { return v == x || strip(v) == strip(x) }
+	// x != "" / x == ""
+	if k, isK := b.Y.(*ssa.Const); isK && same(b.X) && k.Value != nil && k.Value.Kind() == constant.String && constant.StringVal(k.Value) == "" {
+		if c == 0 && ((b.Op == token.NEQ && outcome) || (b.Op == token.EQL && !outcome)) {
+			return true
+		}
+		return false
+	}
+	// len(x) OP k
+	lc, isCall := b.X.(*ssa.Call)
+	if !isCall {
+		return false
+	}
+	bi, isB := lc.Call.Value.(*ssa.Builtin)
+	if !isB || bi.Name() != "len" || !same(lc.Call.Args[0]) {
+		return false
+	}
+	k, isK := constInt(b.Y)
+	if !isK {
+		return false
+	}
+	op := b.Op
+	if !outcome {
+		op = negTok(op)
+	}
+	switch op {
+	case token.GTR:
+		return k >= c
+	case token.GEQ:
+		return k > c
+	case token.EQL:
+		return k > c
+	case token.NEQ:
+		return c == 0 && k == 0
+	}
+	return false
+}
+
+// decodeHelperScope: the codec scope extended by the validation helpers the decoders call in other packages (reference
+// factory, address / path normalisation).
+func (p *Program) decodeHelperScope() map[*ssa.Function]*cgStep {
+	var roots []*ssa.Function
+	for f := range p.codecScope() {
+		roots = append(roots, f)
+	}
+	sort.Slice(roots, func(i, j int) bool { return fnName(roots[i]) < fnName(roots[j]) })
+	inPkg := func(fn *ssa.Function) bool {
+		pk := fnPkg(fn)
+		if pk == nil {
+			return false
+		}
+		switch relPkg(pk) {
+		case "internal/messages", "internal/cluster", "", "internal/remoting/serialize", "internal/remoting", "internal/utils":
+			return true
+		case "internal/actor":
+			// only the reference constructors: functions of strings
+			sig := fn.Signature
+			for i := 0; i < sig.Params().Len(); i++ {
+				if b, ok := sig.Params().At(i).Type().Underlying().(*types.Basic); !ok || b.Info()&types.IsString == 0 {
+					return false
+				}
+			}
+			return sig.Recv() == nil && sig.Params().Len() > 0
+		}
+		return false
+	}
+	return p.closure(roots, cgOpts{ModuleOnly: true, MaxDepth: 4, SkipFunc: func(fn *ssa.Function) bool { return !inPkg(fn) },
+		SkipEdge: func(e *callgraph.Edge) bool { return p.isMailboxEnqueueDispatch(e) }})
 }
